@@ -596,14 +596,31 @@ impl Machine {
         target: &SelSpec,
         data: &[ADSpec],
     ) -> Option<(AnnotationBuilder<'static>, Model, usize)> {
+        let (id, tb, dbs, next, h) = self.prepare_annotate_parts(with_id, sfx, by_handle, target, data)?;
+        let mut builder = AnnotationBuilder::new().with_target(tb);
+        if let Some(id) = id {
+            builder = builder.with_id(id);
+        }
+        for db in dbs {
+            builder = builder.with_data_builder(db);
+        }
+        Some((builder, next, h))
+    }
+
+    /// like `prepare_annotate` but returns the parts of the request separately (id, target, data builders)
+    pub fn prepare_annotate_parts(
+        &mut self,
+        with_id: bool,
+        sfx: u8,
+        by_handle: bool,
+        target: &SelSpec,
+        data: &[ADSpec],
+    ) -> Option<(Option<String>, SelectorBuilder<'static>, Vec<AnnotationDataBuilder<'static>>, Model, usize)> {
         let (tb, tm) = self.resolve_target(target, by_handle)?;
         self.dup_data = false;
         let mut next = self.model.clone();
-        let mut builder = AnnotationBuilder::new().with_target(tb);
+        let mut builder: Vec<AnnotationDataBuilder<'static>> = vec![];
         let id = if with_id { Some(self.fresh("A", sfx)) } else { None };
-        if let Some(id) = &id {
-            builder = builder.with_id(id.clone());
-        }
         let mut mdata = vec![];
         for (i, d) in data.iter().enumerate() {
             let bh = by_handle ^ (i % 2 == 0);
@@ -640,7 +657,7 @@ impl Machine {
                     if let Some(did) = did {
                         db = db.with_id(BuildItem::Id(did));
                     }
-                    builder = builder.with_data_builder(db);
+                    builder.push(db);
                 }
                 ADSpec::Existing { set, data } => {
                     let live = next.live_sets();
@@ -658,17 +675,21 @@ impl Machine {
                     } else {
                         self.dup_data = true;
                     }
-                    builder = builder.with_existing_data(bi_set(&next, s, bh), bi_data(&next, s, dh, bh));
+                    builder.push(
+                        AnnotationDataBuilder::new()
+                            .with_dataset(bi_set(&next, s, bh))
+                            .with_id(bi_data(&next, s, dh, bh)),
+                    );
                 }
             }
         }
         next.anns.push(Some(MAnn {
-            id,
+            id: id.clone(),
             target: tm,
             data: mdata,
         }));
         let h = next.anns.len() - 1;
-        Some((builder, next, h))
+        Some((id, tb, builder, next, h))
     }
 
     pub fn apply(&mut self, op: &Op) -> Step {
